@@ -25,8 +25,11 @@ type RemuxCase struct {
 	HevcSPS codecref.H265SPS `json:"hevc_sps"`
 	PPS     PS               `json:"pps"`
 	Frame   PS               `json:"frame"`
-	// "sdp": InitWithAvConfig (sets announced out of band); "inband": FeedAvPacket
-	Mode string `json:"mode"`
+	// "sdp": InitWithAvConfig (sets announced out of band); "inband": FeedAvPacket with one complete group;
+	// "history": FeedAvPacket with a history of access units whose parameter-set NAL units repeat, go
+	// missing (incomplete groups) or change before the group is complete
+	Mode    string  `json:"mode"`
+	History [][]Tok `json:"history,omitempty"`
 	// in-band framing
 	Avcc          bool    `json:"avcc"` // length-prefixed access units instead of Annex-B
 	Aud           bool    `json:"aud"`  // access unit delimiter in front
@@ -40,6 +43,44 @@ type RemuxCase struct {
 	Channels   int    `json:"channels"`
 	AscTail    []byte `json:"asc_tail,omitempty"`
 	RawLen     int    `json:"raw_len"`
+}
+
+// Tok is one NAL unit of a history: K = "vps" | "sps" | "pps" | "aud" | "idr" | "slice"; G selects the
+// variant of a parameter set (different bytes for different G).
+type Tok struct {
+	K string `json:"k"`
+	G int    `json:"g"`
+}
+
+func genHistory(t *rapid.T, hevc bool) [][]Tok {
+	kinds := []string{"sps", "pps", "sps", "pps", "idr", "slice", "aud"}
+	if hevc {
+		kinds = append(kinds, "vps", "vps")
+	}
+	var h [][]Tok
+	np := rapid.IntRange(1, 5).Draw(t, "nPackets")
+	for i := 0; i < np; i++ {
+		var pkt []Tok
+		switch rapid.IntRange(0, 5).Draw(t, "pktClass") {
+		case 0: // a well-formed key access unit
+			if hevc {
+				pkt = append(pkt, Tok{"vps", 0})
+			}
+			pkt = append(pkt, Tok{"sps", 0}, Tok{"pps", 0}, Tok{"idr", 0})
+		case 1: // the encoder repeats a set inside the access unit
+			g := rapid.IntRange(0, 2).Draw(t, "g")
+			pkt = append(pkt, Tok{"sps", g}, Tok{"sps", g}, Tok{"pps", g}, Tok{"pps", rapid.IntRange(0, 2).Draw(t, "g2")})
+		case 2: // a lone set (the rest of the group was lost)
+			pkt = append(pkt, Tok{rapid.SampledFrom(kinds[:4]).Draw(t, "lone"), rapid.IntRange(0, 2).Draw(t, "g")})
+		default:
+			n := rapid.IntRange(1, 5).Draw(t, "nTok")
+			for j := 0; j < n; j++ {
+				pkt = append(pkt, Tok{rapid.SampledFrom(kinds).Draw(t, "kind"), rapid.IntRange(0, 2).Draw(t, "g")})
+			}
+		}
+		h = append(h, pkt)
+	}
+	return h
 }
 
 func genRemux(t *rapid.T) RemuxCase {
@@ -56,7 +97,13 @@ func genRemux(t *rapid.T) RemuxCase {
 		c.PPS.Len = 2
 	}
 	c.Frame = PS{Seed: rapid.Uint32().Draw(t, "frameSeed"), Len: rapid.IntRange(3, 3000).Draw(t, "frameLen"), Zero: rapid.SampledFrom([]int{0, 300}).Draw(t, "frameZero")}
-	c.Mode = rapid.SampledFrom([]string{"inband", "inband", "sdp"}).Draw(t, "mode")
+	c.Mode = rapid.SampledFrom([]string{"inband", "inband", "sdp", "history", "history"}).Draw(t, "mode")
+	if c.Mode == "history" {
+		c.History = genHistory(t, c.Hevc)
+		if c.PPS.Len > 3000 {
+			c.PPS.Len = 3000
+		}
+	}
 	c.Avcc = rapid.IntRange(0, 2).Draw(t, "avcc") == 0
 	c.Aud = rapid.Bool().Draw(t, "aud")
 	c.SetsOwnPacket = rapid.Bool().Draw(t, "ownPacket")
@@ -103,6 +150,10 @@ func runRemux(c RemuxCase) *pbt.Violation {
 	}
 	var msgs []base.RtmpMsg
 	r := remux.NewAvPacket2RtmpRemuxer().WithOnRtmpMsg(func(m base.RtmpMsg) { msgs = append(msgs, m.Clone()) })
+
+	if c.Mode == "history" {
+		return runRemuxHistory(c, r, &msgs, vpt, aud, frame)
+	}
 
 	var wantASC []byte
 	switch c.Mode {
@@ -204,6 +255,150 @@ func runRemux(c RemuxCase) *pbt.Violation {
 	return nil
 }
 
+// variant returns the bytes of parameter set kind k, variant g.  Variants differ in an id field (model
+// sets) or in the RBSP (PPS) so that every (k, g) is a distinct, well-formed NAL unit.
+func (c RemuxCase) variant(k string, g int) []byte {
+	switch k {
+	case "vps":
+		v := c.HevcVPS
+		v.VpsID = uint8((int(v.VpsID) + g) % 16)
+		return encodeH265VPS(&v)
+	case "sps":
+		if c.Hevc {
+			s := c.HevcSPS
+			s.SpsID = uint32((int(s.SpsID) + g) % 16)
+			b, _, _ := encodeH265SPS(&s)
+			return b
+		}
+		s := c.AvcSPS
+		s.SpsID = uint32((int(s.SpsID) + g) % 32)
+		b, _, _ := encodeH264(&s)
+		return b
+	default:
+		p := c.PPS
+		p.Seed += uint32(g)
+		p.Len += g
+		if c.Hevc {
+			return p.bytes(hevcPPSHdr)
+		}
+		return p.bytes(avcPPSHdr)
+	}
+}
+
+// runRemuxHistory: whatever the order, repetition or loss of parameter-set NAL units, every sequence
+// header the remuxer emits carries, per type, exactly one NAL unit, byte-identical to the latest one of
+// that type the source delivered (never a mixture or concatenation), and a header is emitted once every
+// type has been delivered.
+func runRemuxHistory(c RemuxCase, r *remux.AvPacket2RtmpRemuxer, msgs *[]base.RtmpMsg, vpt base.AvPacketPt, aud, frame []byte) *pbt.Violation {
+	r.WithOption(func(o *base.AvPacketStreamOption) {
+		o.VideoFormat = base.AvPacketStreamVideoFormatAnnexb
+		if c.Avcc {
+			o.VideoFormat = base.AvPacketStreamVideoFormatAvcc
+		}
+	})
+	types := []string{"sps", "pps"}
+	if c.Hevc {
+		types = []string{"vps", "sps", "pps"}
+	}
+	latest := map[string][]byte{} // latest NAL unit of each type delivered so far
+	k := 0
+	headers := 0
+	for pi, pkt := range c.History {
+		before := map[string][]byte{}
+		for t, b := range latest {
+			before[t] = b
+		}
+		inPkt := map[string][][]byte{}
+		var nals [][]byte
+		for _, tok := range pkt {
+			switch tok.K {
+			case "aud":
+				nals = append(nals, aud)
+			case "idr":
+				nals = append(nals, frame)
+			case "slice":
+				h := []byte{0x41}
+				if c.Hevc {
+					h = codecref.H265NALHeader(1, 0, 1)
+				}
+				nals = append(nals, codecref.FillNAL(h, c.Frame.Seed+7, c.Frame.Len, 0))
+			default:
+				b := c.variant(tok.K, tok.G)
+				nals = append(nals, b)
+				inPkt[tok.K] = append(inPkt[tok.K], b)
+				latest[tok.K] = b
+			}
+		}
+		var payload []byte
+		if c.Avcc {
+			payload = codecref.BuildAVCC(nals, 4)
+		} else {
+			var us []codecref.AnnexBUnit
+			for _, n := range nals {
+				us = append(us, codecref.AnnexBUnit{NAL: n, FourByte: c.FourByte[k%5], TrailingZeros: c.Trail[k%5]})
+				k++
+			}
+			payload = codecref.BuildAnnexB(us)
+		}
+		n0 := len(*msgs)
+		r.FeedAvPacket(base.AvPacket{PayloadType: vpt, Timestamp: int64(1000 + 40*pi), Payload: payload})
+		for _, m := range (*msgs)[n0:] {
+			if m.Header.MsgTypeId != base.RtmpTypeIdVideo || len(m.Payload) < 5 || !m.IsVideoKeySeqHeader() {
+				continue
+			}
+			headers++
+			got := map[string][][]byte{}
+			if c.Hevc {
+				cfg, err := codecref.ParseRtmpHevcSeqHeader(m.Payload)
+				if err != nil {
+					return pbt.V("avpacket2rtmp/seq-header-unreadable", "HEVC sequence header emitted for packet %d of history %v: %v", pi, c.History, err)
+				}
+				got["vps"], got["sps"], got["pps"] = cfg.NALUsOfType(32), cfg.NALUsOfType(33), cfg.NALUsOfType(34)
+			} else {
+				cfg, err := codecref.ParseRtmpAvcSeqHeader(m.Payload)
+				if err != nil {
+					return pbt.V("avpacket2rtmp/seq-header-unreadable", "AVC sequence header emitted for packet %d of history %v: %v", pi, c.History, err)
+				}
+				got["sps"], got["pps"] = cfg.SPS, cfg.PPS
+			}
+			for _, t := range types {
+				// candidates: the units of that type in this packet, or the latest one before it
+				cand := inPkt[t]
+				if len(cand) == 0 && before[t] != nil {
+					cand = [][]byte{before[t]}
+				}
+				ok := len(got[t]) == 1
+				if ok {
+					ok = false
+					for _, cb := range cand {
+						if eq(got[t][0], cb) {
+							ok = true
+						}
+					}
+				}
+				// one unit of the type in the packet, or none: it must be exactly the latest delivered
+				if ok && len(inPkt[t]) <= 1 && !eq(got[t][0], latest[t]) {
+					ok = false
+				}
+				if !ok {
+					return pbt.V("avpacket2rtmp/history-parameter-sets", "sequence header emitted for packet %d carries %s = %s; the source delivered %s in that packet and %s before it (history %v, avcc=%v)",
+						pi, t, heads(got[t]), heads(inPkt[t]), head(before[t]), c.History, c.Avcc)
+				}
+			}
+		}
+		complete := true
+		for _, t := range types {
+			if latest[t] == nil {
+				complete = false
+			}
+		}
+		if complete && headers == 0 {
+			return pbt.V("avpacket2rtmp/video-seq-header-count", "every parameter-set type has been delivered by packet %d but no sequence header was emitted (history %v, avcc=%v)", pi, c.History, c.Avcc)
+		}
+	}
+	return nil
+}
+
 func classifyRemux(c RemuxCase) (bool, []string) {
 	labels := []string{"mode=" + c.Mode}
 	nt := false
@@ -237,8 +432,47 @@ func classifyRemux(c RemuxCase) (bool, []string) {
 			labels = append(labels, "aud")
 		}
 	}
-	if c.Audio != "" {
+	if c.Audio != "" && c.Mode != "history" {
 		labels = append(labels, "audio="+c.Audio)
+	}
+	if c.Mode == "history" {
+		nt = true
+		if c.Avcc {
+			labels = append(labels, "history/length-prefixed")
+		} else {
+			labels = append(labels, "history/annexb")
+		}
+		seen := map[string]int{}
+		gens := map[string]map[int]bool{}
+		for _, pkt := range c.History {
+			in := map[string]int{}
+			for _, tok := range pkt {
+				if tok.K == "vps" || tok.K == "sps" || tok.K == "pps" {
+					in[tok.K]++
+					seen[tok.K]++
+					if gens[tok.K] == nil {
+						gens[tok.K] = map[int]bool{}
+					}
+					gens[tok.K][tok.G] = true
+				}
+			}
+			for _, n := range in {
+				if n > 1 {
+					labels = append(labels, "history/type-repeated-in-packet")
+				}
+			}
+			if len(in) > 0 && len(in) < 2 {
+				labels = append(labels, "history/incomplete-group-packet")
+			}
+		}
+		for k, n := range seen {
+			if n > 1 {
+				labels = append(labels, "history/type-delivered-more-than-once")
+			}
+			if len(gens[k]) > 1 {
+				labels = append(labels, "history/changed-set")
+			}
+		}
 	}
 	return nt, uniq(labels)
 }
